@@ -58,6 +58,24 @@ NEEDS = {
  "C19-w3-1": ("cleanupCharClassMatcher rebuilds UnicodeClasses by ranging over a set when there is a duplicate", "-optimize-grammar, a merged class with a duplicated \\p class and at least two distinct classes"),
  "C19-w3-2": ("removing a dead rule releases only one (map order) of the rules it referenced", "-optimize-grammar, a dead rule referencing at least two rules one of which is used by nothing else"),
  "C19-w3-3": ("the re-entry guard of Rule.NullableVisit returns the Nullable flag left by a previous build", "the same AST built more than once in one process, -support-left-recursion, a directly left-recursive rule nullable through a later alternative"),
+ "C05-w5-1": ("-optimize-parser drops the snapshot around action and predicate blocks", "-optimize-parser, a grammar with a state block, an action or predicate block writing to c.state"),
+ "C05-w5-2": ("parseZeroOrOneExpr restores the state when the operand's value is nil", "a state block inside a ? operand that matches with a nil value (a bare state block, or an action returning nil)"),
+ "C05-w5-3": ("cloneState copies the map shallowly until a Cloner has been seen, and looks for one only when the key count changes", "no Cloner via InitState, a state block replacing an existing non-Cloner value by a Cloner, later mutated in place inside something that fails"),
+ "C11-w5-1": ("(*parserError).Error uses the prefix as a format string", "a file name or display name containing a percent sign"),
+ "C11-w5-2": ("the panic handler calls String() on a Stringer panic value directly", "a block panicking with a fmt.Stringer whose String method itself panics, Recover(true)"),
+ "C11-w5-3": ("addErrAt passes a nested error list through unprefixed", "a block returning, unchanged, the error list of a nested parse of the same package"),
+ "C13-w5-1": ("the front-end accepts long Unicode category names that the builder and runtime do not know", "[\\p{Letter}] and similar alias names, with -optimize-basic-latin (Go panic trace, exit 2)"),
+ "C13-w5-2": ("a goimports failure is forgotten when the parser goes to stdout", "a code block that is not valid Go, output on stdout"),
+ "C13-w5-3": ("SeqExpr.NullableVisit visits every item: nullability analysis becomes exponential in the depth of rule chains", "sequences with two references to the next rule, chained 30+ deep over a non-nullable base (the logical-time bound; a nullable base is F7 on the pinned tree)"),
+ "C16-w5-1": ("the budget limit lives in Stats, which the Statistics option replaces", "MaxExpressions before Statistics in the option list, or a reused Stats value"),
+ "C16-w5-2": ("the panic handler reports a panic only when no earlier error exists", "an ordinary error recorded first, the budget running out later"),
+ "C16-w5-3": ("code blocks are dispatched around parseExpr, so they are not counted", "non-optimized parser, a repetition whose body is only a predicate or state block"),
+ "C18-w5-1": ("Unicode classes resolved at match time through an unsynchronised package-level cache", "a grammar with \\p classes, a rune reaching the class list, the first parses of the process overlapping (most parsers of class-free grammars no longer compile with this change; they are left out loudly)"),
+ "C18-w5-2": ("parser defaults copied from a package-level template whose maxFailExpected slice has spare capacity", "two overlapping parses, one failing with 'no match found, expected: ...'"),
+ "C18-w5-3": ("the Stats value goes through a sync.Pool, the caller's too", "a parse with Statistics, then any parse drawing that object"),
+ "C19-w5-1": ("BuildParser assembles the output in a pooled buffer that is not reset when the build fails", "library use: a build into a failing writer, then another build in the same process"),
+ "C19-w5-2": ("FuncIx stays on the AST; the builder remembers what it rendered", "library use: build, then ast.Optimize, then build the same grammar value"),
+ "C19-w5-3": ("with -optimize-parser a grammar-specific rangeTable switch is emitted in map order", "-optimize-parser and two or more distinct \\p classes"),
  "C05-w4-1": ("parseSeqExpr returns early, without restoreState, when the sequence did not advance", "a state block before the sequence consumes anything, the next element failing, the sequence under * + or ? (not a choice alternative)"),
  "C05-w4-2": ("a successful sequence puts its snapshot back into the pool without clearing it", "a key created by a state block, a sequence succeeding while it exists, the enclosing expression failing, a later failing expression restoring the polluted snapshot"),
  "C05-w4-3": ("the builder marks which sequences need a snapshot and does not see state changes reached through a throw", "a state change made inside a recovery expression (doc.go makes the grammar author responsible for state during recovery operations: outside what C05 demands; generated recovery expressions contain no state blocks)"),
